@@ -128,7 +128,7 @@ def bodyS (s : Bool) (b : Term) : Bool := (SLD.conjuncts b).all (goalS s)
 def dbodyS (s : Bool) (b : Term) : Bool := (SLD.disjuncts b).all (bodyS s)
 
 def clauseS (s : Bool) (c : Term) : Bool :=
-  wfT c && hornHead (SLD.headBody c).1 && bodyS s (SLD.headBody c).2
+  wfT c && hornHead (SLD.headBody c).1 && dbodyS s (SLD.headBody c).2
 
 /-- a head the compiler accepts (any name but the list and the clause functor) -/
 def headOK : Term → Bool
@@ -169,10 +169,10 @@ structure CutFrag (prog : List Term) (query : Term) : Prop where
 theorem goalS_false (t : Term) : goalS false t = cutGoal t := by simp [goalS, stepGoal, cutGoal]
 theorem bodyS_false (b : Term) : bodyS false b = bodyOK b := by
   simp only [bodyS, bodyOK]; congr 1; funext t; exact goalS_false t
-theorem clauseS_false (c : Term) : clauseS false c = clauseOK c := by simp [clauseS, clauseOK, bodyS_false]
 /-- **the fragment (stage 3)**: stage 2 + the control constructs `ctlGoal` as goals of clause bodies,
     of the query and of the goals that are called: `call/1` (also as a variable in goal position),
-    if-then-else, if-then, `once/1`, `\\+`/1 -/
+    if-then-else, if-then, `once/1`, `\\+`/1; + disjunction at the top level of clause bodies, of the
+    query and of called goals (`dbodyS`).  Decidable. -/
 abbrev CtlFrag (prog : List Term) (query : Term) : Prop := FragS true prog query
 /-- (the name under which stage 3a was delivered) -/
 abbrev CallFrag (prog : List Term) (query : Term) : Prop := FragS true prog query
@@ -458,7 +458,10 @@ theorem dbodyS_of_body {fl : Bool} {b : Term} (h : bodyS fl b = true) : dbodyS f
 
 
 theorem FragS.of_cut {prog : List Term} {query : Term} (h : CutFrag prog query) : FragS false prog query :=
-  ⟨fun c hc => by rw [clauseS_false]; exact h.clauses c hc, dbodyS_of_body (by rw [bodyS_false]; exact h.goal), h.wf,
+  ⟨fun c hc => by
+      have := h.clauses c hc
+      simp only [clauseOK, clauseS, Bool.and_eq_true] at this ⊢
+      exact ⟨this.1, dbodyS_of_body (by rw [bodyS_false]; exact this.2)⟩, dbodyS_of_body (by rw [bodyS_false]; exact h.goal), h.wf,
     bodyOK_not_var h.goal, h.small⟩
 
 theorem FragS.mono {prog : List Term} {query : Term} (h : FragS false prog query) (s : Bool) : FragS s prog query := by
@@ -473,7 +476,10 @@ theorem FragS.mono {prog : List Term} {query : Term} (h : FragS false prog query
     exact fun dj hdj => hb dj (this dj hdj)
   have := h.clauses c hc
   simp only [clauseS, Bool.and_eq_true] at this ⊢
-  exact ⟨this.1, hb _ this.2⟩
+  refine ⟨this.1, ?_⟩
+  have h2 := this.2
+  simp only [dbodyS, List.all_eq_true] at h2 ⊢
+  exact fun dj hdj => hb dj (h2 dj hdj)
 
 /-- a body of the fragment is not a disjunction: the compiler sees ONE alternative -/
 theorem altBodies_toRep {s : Bool} (b : Term) (h : bodyS s b = true) : altBodies (toRep b) = [toRep b] := by
@@ -626,9 +632,11 @@ theorem headOK_of_horn {h : Term} (hh : hornHead h = true) : headOK h = true := 
     simp [headOK, hh.1, hf, hf2]
   | _ => simp [hornHead] at hh
 
-theorem clauseC_of_S {s : Bool} {c : Term} (h : clauseS s c = true) : clauseC s c = true := by
-  simp only [clauseS, clauseC, Bool.and_eq_true] at h ⊢
-  exact ⟨⟨h.1.1, headOK_of_horn h.1.2⟩, h.2⟩
+/-- a clause with a user predicate name whose body has one alternative -/
+theorem clauseC_of_S1 {s : Bool} {c : Term} (h : wfT c = true) (hh : hornHead (SLD.headBody c).1 = true)
+    (hb : bodyS s (SLD.headBody c).2 = true) : clauseC s c = true := by
+  simp only [clauseC, Bool.and_eq_true]
+  exact ⟨⟨h, headOK_of_horn hh⟩, hb⟩
 
 theorem hornHead_toRep {h : Term} (hh : headOK h = true) (hw : wfT h = true) :
     CallableHead (toRep h) = true ∧ WF (toRep h) = true ∧
